@@ -133,7 +133,7 @@ theorem C04_isolation (r : Realm) (hi : RealmInv r) (x : SessKey) (mode : LeaveM
     (∀ k, k ≠ x → (r'.isClient k ↔ r.isClient k)) ∧
     (∀ k id, k ≠ x → (r'.broker.isMember k id ↔ r.broker.isMember k id)) ∧
     (∀ k id, k ≠ x → (calleeRel r'.ds.d.regs id k ↔ calleeRel r.ds.d.regs id k)) ∧
-    (∀ k, ∃ extra, queueOf r'.queues k = queueOf r.queues k ++ extra) ∧
+    (∀ k, ∃ extra, queueOfList r'.queues k = queueOfList r.queues k ++ extra) ∧
     RealmInv r' ∧ r'.panic = r.panic := by
   intro r'
   have hnb' : ∀ y ∈ r.retries, y.callee ≠ x := not_busy (by rw [hnb]; simp)
